@@ -36,6 +36,15 @@ func metricGen(ts *rapid.Generator[int64]) *rapid.Generator[*gostatsd.Metric] {
 		if rapid.IntRange(0, 3).Draw(t, "oddsrc") == 0 {
 			m.Source = gostatsd.Source(rapid.SampledFrom(idStrings).Draw(t, "oddsource"))
 		}
+		if rapid.IntRange(0, 7).Draw(t, "long") == 0 {
+			// names and tag lists longer than any small fixed buffer (129, 200, 600 bytes)
+			n := rapid.SampledFrom([]int{129, 200, 600}).Draw(t, "longlen")
+			if rapid.Bool().Draw(t, "long-name") {
+				m.Name = strings.Repeat(rapid.SampledFrom([]string{"n", "service.requests.", "ab"}).Draw(t, "unit"), n)[:n]
+			} else {
+				m.Tags = gostatsd.Tags{"k:" + strings.Repeat(rapid.SampledFrom([]string{"v", "xy", "tag-"}).Draw(t, "unit"), n)[:n], "env:prod"}
+			}
+		}
 		if rapid.IntRange(0, 3).Draw(t, "oddtags") == 0 {
 			// tags without ',' and not starting with "s:" (those make two identities render to the same map key; excluded)
 			m.Tags = gostatsd.Tags(rapid.SliceOfN(rapid.SampledFrom([]string{"a", "b", "ab", "bc", "c", ":", "k:v", "\xff", " "}), 0, 3).Draw(t, "oddtaglist"))
